@@ -180,7 +180,7 @@ class OpGen:
                 if not node.attrs:
                     return self.pick(tr, ["set_node_markup"])
                 a = r.choice(list(node.attrs))
-                v = r.choice(ATTR_POOL.get(a, GENERIC_VALUES))
+                v = __import__("copy").deepcopy(r.choice(ATTR_POOL.get(a, GENERIC_VALUES)))
                 return name, {"pos": p, "attr": a, "value": json.dumps(v)}, lambda: tr.set_node_attribute(p, a, v)
             m = self.sg.mark()
             if m is None:
@@ -194,7 +194,7 @@ class OpGen:
             if not doc.attrs:
                 return self.pick(tr, REPLACE_FAMILY)
             a = r.choice(list(doc.attrs))
-            v = r.choice(ATTR_POOL.get(a, GENERIC_VALUES))
+            v = __import__("copy").deepcopy(r.choice(ATTR_POOL.get(a, GENERIC_VALUES)))
             return name, {"attr": a, "value": json.dumps(v)}, lambda: tr.set_doc_attribute(a, v)
         raise ValueError(name)
 
